@@ -11,7 +11,7 @@
     [refs_ok c] (round 3, groups and [requires]): group ids are unique, every group member is an argument,
     every id named by a [requires] rule of an argument or of a group exists -- what debug_asserts.rs checks. *)
 From ClapModel Require Import Base.Bytes Base.Machine Parse.Cmd Parse.Build Parse.Valid Parse.Matcher Parse.Errors Parse.Validator Parse.Parser.
-From ClapModel Require Import Gen.HelpTables Help.UsageModel Help.HelpModel Help.HelpReqs Help.HelpProofs Help.HelpLevel Help.HelpSpecVals Help.HelpDispatch Help.HelpUsage Help.HelpGlobals Help.HelpTemplate Help.HelpHeadings.
+From ClapModel Require Import Gen.HelpTables Help.UsageModel Help.HelpModel Help.HelpReqs Help.HelpProofs Help.HelpLevel Help.HelpSpecVals Help.HelpDispatch Help.HelpUsage Help.HelpGlobals Help.HelpTemplate Help.HelpHeadings Help.HelpRefsBuild.
 From RecordUpdate Require Import RecordSet.
 Import RecordSetNotations.
 Open Scope N_scope.
@@ -440,3 +440,16 @@ Theorem C12_options_tag_iff : forall c,
     /\ ha_hide f = false /\ ha_required f = false /\ in_required_group c f = false.
 Proof. exact options_tag_iff. Qed.
 Print Assumptions C12_options_tag_iff.
+
+(** round 3: [refs_ok] is a property of the USER's command -- [_build_self] keeps the groups and the id / [required] /
+    [requires] of every argument and only appends the generated [--help] / [--version] (which require nothing) *)
+Theorem C12_refs_ok_build : forall c, refs_ok c = true -> refs_ok (h_build_self c) = true.
+Proof. exact refs_ok_build. Qed.
+Print Assumptions C12_refs_ok_build.
+
+(** [Command::render_help] / [render_long_help] / [render_usage] never panic: hypotheses on the user's command *)
+Theorem C12_render_total_user : forall dw c use_long w,
+  hc_built c = false -> spec_ok c -> refs_ok c = true -> widths_ok dw (h_build_self c) ->
+  render_help dw c use_long w <> None /\ render_usage c <> None.
+Proof. exact render_total_user. Qed.
+Print Assumptions C12_render_total_user.
